@@ -693,6 +693,13 @@ class Models:
         if name in ("parse", "check"):
             # InputRef::parse(parser): Result<O, E::Error>; Err ⇒ alt taken & returned
             return self.user_call(fr, vals[1], [("inp", n)], [], dest_ty, line)
+        # an InputRef method outside the modelled vocabulary (a new crate-private helper such as `is_at`, `skip_to`):
+        # interpret its body in place - what it does to the cursor / error slots shows up in the caller's typestate and
+        # automaton exactly as if the caller had written it out (direct field writes are classified by HOOKS-WRITERS)
+        cb = self.local_body_of(f)
+        if cb is not None and fr.depth < 4 and cb is not fr.body and cb is not getattr(self.I, "cur_root", None):
+            self.I.stats["helpers_inlined"] = self.I.stats.get("helpers_inlined", 0) + 1
+            return self.I.run_body(cb, list(vals), fr.st, fr.depth + 1)
         raise AnalysisError("unmodelled InputRef method %s (unknown effect) in %s" % (name, fr.body["uname"]))
 
     def rewind(self, fr, n, ck, line):
